@@ -4,7 +4,7 @@ from . import common, projgen, projcheck, projrun
 
 PROF = projgen.profile(n_builders=(2, 4), n_apps=(2, 3), n_mods=(4, 9), p_ifthen=0.45, p_optsrc=0.45, p_tasks=0.5, p_cli_define=0.6,
                        p_varopts=0.3, p_env=0.5, p_custom_build=0.08, p_download=0.05)
-OBS = ("status", "decision", "modules", "global_env", "module_env", "outfile", "tasks", "ninja")
+OBS = ("status", "decision", "modules", "loaded", "global_env", "module_env", "outfile", "tasks", "ninja")
 THREADS = ["1", "2", "3", "5", "8", "16"]
 
 
